@@ -190,3 +190,170 @@ func ids(a any, withDiagram bool) []string {
 	rec(reflect.ValueOf(a), 0)
 	return out
 }
+
+// Print renders every exported field of the model reachable from a, deterministically: the
+// fingerprint used to show that an operation (serialising) did not alter the model.
+func Print(a any) string {
+	var sb strings.Builder
+	seen := map[uintptr]bool{}
+	var rec func(v reflect.Value, depth int)
+	rec = func(v reflect.Value, depth int) {
+		if !v.IsValid() || depth > 80 {
+			sb.WriteString("~")
+			return
+		}
+		switch v.Kind() {
+		case reflect.Pointer:
+			if v.IsNil() {
+				sb.WriteString("nil")
+				return
+			}
+			if seen[v.Pointer()] && v.Elem().Kind() == reflect.Struct {
+				sb.WriteString("^")
+				return
+			}
+			seen[v.Pointer()] = true
+			if v.Elem().Kind() == reflect.String && strings.TrimSpace(v.Elem().String()) == "" {
+				// an absent text payload and a whitespace-only one are the same model
+				sb.WriteString("nil")
+				return
+			}
+			sb.WriteString("&")
+			rec(v.Elem(), depth+1)
+		case reflect.Interface:
+			if v.IsNil() {
+				sb.WriteString("nil")
+				return
+			}
+			sb.WriteString(v.Elem().Type().String() + ":")
+			rec(v.Elem(), depth+1)
+		case reflect.Struct:
+			sb.WriteString(v.Type().Name() + "{")
+			for i := 0; i < v.NumField(); i++ {
+				f := v.Type().Field(i)
+				if !f.IsExported() {
+					continue
+				}
+				sb.WriteString(f.Name + "=")
+				rec(v.Field(i), depth+1)
+				sb.WriteString(";")
+			}
+			sb.WriteString("}")
+		case reflect.Slice, reflect.Array:
+			if v.Kind() == reflect.Slice && v.IsNil() {
+				sb.WriteString("nil[]")
+				return
+			}
+			sb.WriteString("[")
+			for i := 0; i < v.Len(); i++ {
+				rec(v.Index(i), depth+1)
+				sb.WriteString(",")
+			}
+			sb.WriteString("]")
+		case reflect.Map:
+			keys := v.MapKeys()
+			ks := make([]string, len(keys))
+			for i, k := range keys {
+				ks[i] = fmt.Sprintf("%v", k)
+			}
+			sortStrings(ks)
+			sb.WriteString("map[")
+			for _, k := range ks {
+				for _, kk := range keys {
+					if fmt.Sprintf("%v", kk) == k {
+						sb.WriteString(k + ":")
+						rec(v.MapIndex(kk), depth+1)
+						sb.WriteString(",")
+					}
+				}
+			}
+			sb.WriteString("]")
+		case reflect.String:
+			// (surrounding whitespace of a text payload is not part of the model: "whitespace-only text aside")
+			sb.WriteString(fmt.Sprintf("%q", strings.TrimSpace(v.String())))
+		case reflect.Func, reflect.Chan, reflect.UnsafePointer:
+			sb.WriteString("fn")
+		default:
+			if v.CanInterface() {
+				sb.WriteString(fmt.Sprintf("%v", v.Interface()))
+			}
+		}
+	}
+	rec(reflect.ValueOf(a), 0)
+	return sb.String()
+}
+
+func sortStrings(a []string) {
+	for i := 1; i < len(a); i++ {
+		for j := i; j > 0 && a[j] < a[j-1]; j-- {
+			a[j], a[j-1] = a[j-1], a[j]
+		}
+	}
+}
+
+// FirstDiff shows where two fingerprints part.
+func FirstDiff(a, b string) string {
+	i := 0
+	for i < len(a) && i < len(b) && a[i] == b[i] {
+		i++
+	}
+	lo := i - 70
+	if lo < 0 {
+		lo = 0
+	}
+	cut := func(s string) string {
+		hi := i + 50
+		if hi > len(s) {
+			hi = len(s)
+		}
+		if lo > len(s) {
+			return ""
+		}
+		return s[lo:hi]
+	}
+	return fmt.Sprintf("before ...%s... after ...%s...", cut(a), cut(b))
+}
+
+// BlankDefaultItemTypes sets the type of every olive item (a struct with Name, Value, Type and
+// Ref fields) whose type is the default "string" to "", and returns how many it changed.
+func BlankDefaultItemTypes(a any) int {
+	n := 0
+	seen := map[uintptr]bool{}
+	var rec func(v reflect.Value, depth int)
+	rec = func(v reflect.Value, depth int) {
+		if !v.IsValid() || depth > 80 {
+			return
+		}
+		switch v.Kind() {
+		case reflect.Pointer:
+			if v.IsNil() || seen[v.Pointer()] {
+				return
+			}
+			seen[v.Pointer()] = true
+			rec(v.Elem(), depth+1)
+		case reflect.Interface:
+			if !v.IsNil() {
+				rec(v.Elem(), depth+1)
+			}
+		case reflect.Struct:
+			if v.Type().Name() == "Item" {
+				if f := v.FieldByName("Type"); f.IsValid() && f.Kind() == reflect.String && f.CanSet() && f.String() == "string" {
+					f.SetString("")
+					n++
+				}
+				return
+			}
+			for i := 0; i < v.NumField(); i++ {
+				if v.Type().Field(i).IsExported() {
+					rec(v.Field(i), depth+1)
+				}
+			}
+		case reflect.Slice, reflect.Array:
+			for i := 0; i < v.Len(); i++ {
+				rec(v.Index(i), depth+1)
+			}
+		}
+	}
+	rec(reflect.ValueOf(a), 0)
+	return n
+}
